@@ -21,7 +21,7 @@ assigns for every code -- both are value-level; the panic / loop / allocation si
 import re
 import facts as F
 from cfg import CFG
-from flow import Flow, last_seg, PASS_LAST
+from flow import Flow, last_seg, PASS_LAST, arg_local
 
 PT = PASS_LAST + ("new", "zip")
 from sym import PathSym, enum_paths, feasible, show, walk
@@ -144,6 +144,17 @@ def rule_sib(ctx, f):
                 for st in bb2["stmts"]:
                     if st[0] == "assign" and st[2][0] == "binop" and st[2][1] in ("Lt", "Le", "Gt", "Ge") and any(F.const_int(o) in (0xff, 0x100) for o in (st[2][2], st[2][3])):
                         guard = True
+        # `<lo> <hi>`: the first code written is the first of the run, the second the last of the run (the reader pairs lo..=hi with the texts)
+        wfl = Flow(w)
+        order = sorted(mine, key=lambda c: sum(1 for c2 in mine if wcfg.dominates(c2, c)))
+        lo_c, hi_c = order[0], order[-1]
+        def cnames(c):
+            l = arg_local(w["blocks"][c]["term"], 1)
+            return {last_seg(a[1]) for a in wfl.origins(l, passthrough=PT + ("last", "first", "index", "get")) if a[0] == "call"} if l is not None else set()
+        lo_n, hi_n = cnames(lo_c), cnames(hi_c)
+        ctx.check("last" in hi_n and "last" not in lo_n, "C19-SIB", "write_cmap#range-bounds@%d" % k, "the two codes in front of a range entry's texts are not the first and the last "
+                  "code of the run (first from %s, second from %s): the reader maps lo..=hi onto the texts, so the other codes of the run are lost or shifted"
+                  % (sorted(lo_n) or "an index", sorted(hi_n) or "an index"), w["blocks"][hi_c]["term"]["span"], detail="<block[0]> <block.last()> [texts of the block]")
         ctx.check(bool(opened) or guard, "C19-SIB", "write_cmap#range-form@%d" % k, "a range entry is written in the string form `<lo> <hi> <text>` with no test of the "
                   "0xFF bound: the reader increments only the last byte of the text and stops at 0xFF, so a run that crosses a multiple of 256 loses its tail", t["span"],
                   detail="range entries use the array form (or test the last byte against 0xFF)")
@@ -153,6 +164,22 @@ def rule_sib(ctx, f):
         ctx.lost("C19-SIB", "font::utf16be_to_string")
     else:
         strips = sorted({last_seg(F.callee_name(t)) for bb in f.with_closures(ub["id"]) for bi, t in F.calls(bb)} & {"strip_prefix", "starts_with", "trim_start_matches", "skip", "split_at"})
+        # ... whatever the spelling (a slice pattern `[0xFE, 0xFF, rest @ ..]` needs no call): what is handed to the unit decoder is the
+        # parameter itself
+        ufl = Flow(ub)
+        whole = False
+        for bi, t in F.calls(ub):
+            if last_seg(F.callee_name(t)) == "utf16be_to_char" and t["args"] and F.op_place(t["args"][0]):
+                r0 = ufl.resolve(F.op_place(t["args"][0]))
+                for _ in range(4):
+                    d0 = ufl.defs.get(r0[0], [])
+                    if r0[0] != 1 and len(d0) == 1 and d0[0][0] == "assign" and not d0[0][3] and d0[0][2][0] == "ref":
+                        r0 = ufl.resolve(list(d0[0][2][1]) + r0[1:])        # `&*data`
+                    else:
+                        break
+                whole = r0[0] == 1 and all(e[0] == "deref" for e in r0[1:])
+        if not whole:
+            strips = strips + ["a sub-slice of the parameter"]
         ctx.check(not strips, "C19-SIB", "utf16be_to_string#no-bom-strip", "the text decoder of the character-map reader removes a prefix (%s) that the writer never adds: a mapped text "
                   "that starts with U+FEFF does not read back" % ", ".join(strips), ub["span"], detail="decodes every code unit it is given")
     # the reader accepts both range forms: a String arm and an Array arm for the third operand
@@ -226,6 +253,23 @@ def rule_read(ctx, f):
                       "range (all of a one-code range) gets no text", t["span"], detail="for code in start..=end")
             if incl:
                 n_range += 1
+                # the range runs from the code of the FIRST string of the entry to the code of the SECOND one
+                ends = None
+                for a in fl.origins(cl, passthrough=PT):
+                    if a[0] == "call" and last_seg(a[1]) == "new" and "RangeInclusive" in (a[1] + a[3].get("callee_full", "")) and len(a[3]["args"]) == 2:
+                        toks = []
+                        for o in a[3]["args"]:
+                            pc0 = fl.root_call(F.op_place(o)) if F.op_place(o) else None
+                            tok = None
+                            if pc0 is not None and last_seg(F.callee_name(pc0[1])) == "parse_cid" and F.op_place(pc0[1]["args"][0]):
+                                tk = fl.root_call(F.op_place(pc0[1]["args"][0]))
+                                tok = tk[0] if tk is not None and last_seg(F.callee_name(tk[1])) in ("parse_with_lexer", "next", "parse") else None
+                            toks.append(tok)
+                        ends = toks
+                ctx.check(ends is not None and None not in ends and ends[0] != ends[1] and cfg.dominates(ends[0], ends[1]), "C19-READ",
+                          "parse_cmap#insert@%d:range-ends" % (inserts.index((bi, t)) + 1), "the code range of a bfrange entry does not run from the first string of the entry to the "
+                          "second (token reads behind start / end: %s): codes between them get no text or the wrong one" % (ends,), t["span"],
+                          detail="start <- first string, end <- second string")
     # codes are one or two bytes long
     pc = f.body("font::parse_cid")
     if pc is None:
